@@ -56,6 +56,22 @@ fn strategy(tier: Tier) -> BoxedStrategy<Case> {
         .boxed()
 }
 
+/// A fifth of the histories start on a foreign-layout file whose unallocated directory
+/// entries still hold the CLSID, state bits, times and size of an earlier object (accepted
+/// by both open modes): objects created in those slots must report fresh metadata.
+fn strategy_with_stale_slots(tier: Tier) -> BoxedStrategy<Case> {
+    (strategy(tier), proptest::option::weighted(0.2, (any::<u64>(), any::<u16>())))
+        .prop_map(|(mut c, st)| {
+            if let Some((seed, sel)) = st {
+                // the synthesized tree takes its names from the pool; keep the prefix ops out
+                c.ops.retain(|o| !matches!(o, Op::CreateStorage { p: PathSpec::Raw(_) } | Op::CreateStream { p: PathSpec::Raw(_), .. }));
+                c.start = Start::Deviant { seed, devs: vec![((crate::props::c16::ALL_DEVS.len() + 1) as u8, sel)] };
+            }
+            c
+        })
+        .boxed()
+}
+
 fn nontrivial(s: &Stats, c: &Case) -> bool {
     // an extreme or sub-100ns time was set (successfully) and the history has enough
     // entries for a second directory sector
@@ -73,7 +89,7 @@ fn report(c: &Case) -> CaseReport {
 }
 
 fn worker(ctx: &Ctx) -> WorkerResult {
-    run_worker(ctx, strategy(ctx.tier), report)
+    run_worker(ctx, strategy_with_stale_slots(ctx.tier), report)
 }
 
 fn solo(v: &Value) -> Result<CaseReport, String> {
@@ -95,7 +111,7 @@ pub fn def() -> PropDef {
     PropDef {
         id: "C17",
         level: "exploration",
-        rule: "histories dominated by set_state_bits (any u32), set_storage_clsid (any 128 bits, also on streams -> InvalidInput), set_created_time/set_modified_time with UNIX_EPOCH +/- (secs, nanos) from extreme and random values, touch, on storages, streams, the root and missing paths, after a prefix that fills 0-40 directory entries (several directory sectors), with reopen (strict/permissive) at random steps; entry(), read_storage and walk results are compared with an exact integer FILETIME model (saturating, nanos/100 truncated), new-storage and touch times with the clock interval around the call; dump every 5 ops and after the final reopen in both modes. Non-trivial = a time before 1970, after 2100 or with a sub-100ns fraction was set successfully in a history with enough entries for a second directory sector; distinct = distinct case JSON.",
+        rule: "histories dominated by set_state_bits (any u32), set_storage_clsid (any 128 bits, also on streams -> InvalidInput), set_created_time/set_modified_time with UNIX_EPOCH +/- (secs, nanos) from extreme and random values, touch, on storages, streams, the root and missing paths, after a prefix that fills 0-40 directory entries (several directory sectors), with reopen (strict/permissive) at random steps; a fifth of the histories start on a synthesized foreign file whose unallocated directory entries hold stale CLSID/state/time/size bytes; entry(), read_storage and walk results are compared with an exact integer FILETIME model (saturating, nanos/100 truncated), new-storage and touch times with the clock interval around the call; dump every 5 ops and after the final reopen in both modes. Non-trivial = a time before 1970, after 2100 or with a sub-100ns fraction was set successfully in a history with enough entries for a second directory sector; distinct = distinct case JSON.",
         assumptions: &["touch on the root: documentation ('no effect') and code disagree, either outcome accepted", "SystemTime on this platform represents the whole FILETIME range"],
         quick_cases: 2500,
         thorough_cases: 30000,
